@@ -56,6 +56,17 @@ def build_pdag(g, lab, cls="mixed"):
     if cls == "cpdag":
         from pywhy_graphs import CPDAG
         G = CPDAG()
+    elif (len(g["D"]) + 2 * len(g["U"]) + g["n"]) % 3 == 0:
+        # the layers are built separately (every label object created anew for each layer) and handed to the
+        # constructor; both layers know every node
+        dg, ug = nx.DiGraph(), nx.Graph()
+        for v in C.g_nodes(g):
+            dg.add_node(lab(v))
+        for v in reversed(C.g_nodes(g)):
+            ug.add_node(lab(v))
+        dg.add_edges_from((lab(a), lab(b)) for a, b in g["D"])
+        ug.add_edges_from((lab(a), lab(b)) for a, b in g["U"])
+        return pywhy_nx.MixedEdgeGraph(graphs=[dg, ug], edge_types=["directed", "undirected"])
     else:
         G = pywhy_nx.MixedEdgeGraph(graphs=[nx.DiGraph(), nx.Graph()], edge_types=["directed", "undirected"])
     for v in C.g_nodes(g):
